@@ -874,6 +874,18 @@ func (s *stack) runIfReady(tid int) string {
 	return "ran"
 }
 
+// stepThread performs one operation of thread tid, letting fake time pass (lock polls, back-offs) while the thread is waiting on a
+// timer; it reports "blocked" only if the thread neither reaches a gate nor finishes within maxWait of fake time.
+func (s *stack) stepThread(tid int, maxWait time.Duration) string {
+	for waited := time.Duration(0); ; waited += 10 * time.Millisecond {
+		x := s.runIfReady(tid)
+		if x != "blocked" || waited >= maxWait {
+			return x
+		}
+		time.Sleep(10 * time.Millisecond)
+	}
+}
+
 // drainAll cancels every request that has not finished and keeps releasing gates until all request goroutines have ended
 // (a goroutine left parked at a gate would keep the synctest bubble from ending).
 func (s *stack) drainAll() {
